@@ -244,6 +244,12 @@ def gen_case(r):
             c.argv.insert(1, r.choice(['-i', '--incremental']))
             c.meta['inc'] = True
             c.ops = [['find_timestamp']]
+            ino = c.tree.lookup('Manifest')
+            if r.random() < 0.5 and ino is not None and c.tree.nodes[ino]['k'] == 'f':
+                # a TIMESTAMP at the ends of what the format can say (first / last day of the calendar), a leap day, the epoch
+                stamp = r.choice(['0001-01-01T00:00:00Z', '0001-01-01T23:59:59Z', '9999-12-31T23:59:59Z', '1970-01-01T00:00:00Z', '2024-02-29T12:00:00Z', '0999-06-01T00:00:00Z'])
+                c.tree.nodes[ino]['data'] = ('TIMESTAMP %s\n' % stamp).encode() + c.tree.nodes[ino]['data']
+                c.meta['timestamp_prepended'] = stamp
             if target != '':
                 c.meta['precondition'] = 'incremental-needs-whole-tree'
     else:
